@@ -20,7 +20,7 @@ type c11roll struct {
 func c11Invariant(roll *c11roll) regInv {
 	return func(r *core.Result, s *regState, hist string) {
 		r.Evals++
-		var vals [2]fr.Element
+		vals := [2]fr.Element{dirtyFr(), dirtyFr()}
 		for i := 0; i < 2; i++ {
 			e := s.e[i]
 			reg := fmt.Sprintf("r%d", i)
@@ -56,7 +56,8 @@ func c11Invariant(roll *c11roll) regInv {
 				} else {
 					els[k] = &e1
 				}
-				res[k] = new(fr.Element)
+				d := dirtyFr()
+				res[k] = &d
 			}
 			if err := banderwagon.BatchMapToScalarField(res, els); err != nil {
 				vio(r, "c11.batch", "banderwagon.BatchMapToScalarField", hist, "no error", err.Error())
@@ -109,7 +110,8 @@ func init() {
 					}
 					res := make([]*fr.Element, L)
 					for i := range res {
-						res[i] = new(fr.Element)
+						d := dirtyFr()
+						res[i] = &d
 					}
 					in := fmt.Sprintf("BatchMapToScalarField(len %d)", L)
 					var err error
